@@ -876,6 +876,7 @@ func (cv *Conv) Exec(e *Edge) (divs []evid.Div, fatal error) {
 					case "tls":
 						props["C10"] = true
 						props["C09"] = true // what counts as a protected connection decides whether AUTH is allowed
+						props["C03"] = true // and it is what the backend is shown while its session is created
 					case "didAuth":
 						props["C09"] = true
 					case "errCount", "lineLimit", "tooLong":
